@@ -395,7 +395,7 @@ pub fn check(ctx: &Ctx) {
     let quick = ctx.tier == Tier::Quick;
     let mut cases = Vec::new();
     // full line alphabet
-    for lines in seqs(&all, if quick { 3 } else { 4 }) {
+    for lines in seqs(&all, if quick { 3 } else { 5 }) {
         for eol in 0..3u8 {
             if eol == 2 && lines.len() < 3 {
                 continue;
@@ -411,7 +411,7 @@ pub fn check(ctx: &Ctx) {
         }
     }
     // deeper texts over the 4-shape sub-alphabet
-    for lines in seqs(&SHAPES4, if quick { 6 } else { 8 }) {
+    for lines in seqs(&SHAPES4, if quick { 6 } else { 10 }) {
         if lines.len() <= 3 {
             continue;
         }
@@ -444,7 +444,7 @@ pub fn check(ctx: &Ctx) {
     ctx.run_space(
         "texts",
         true,
-        "texts = sequences of lines from a 14-line alphabet (dash lines, armor boundary strings, trailing blanks, inner CR, UTF-8) up to 3 (thorough 4) lines and from a 4-shape sub-alphabet up to 6 (8) lines x line ending {LF,CRLF,mixed} x final {none,newline,lone CR} x {sign v4, sign v6, new SHA-512, new_many 2 signers}: sign -> signed_text = RFC form -> armored -> independent reader sees the text -> from_string -> same text, verifies; non-trivial = text contains '-', blank, TAB or CR",
+        "texts = sequences of lines from a 14-line alphabet (dash lines, armor boundary strings, trailing blanks, inner CR, UTF-8) up to 3 (thorough 5) lines and from a 4-shape sub-alphabet up to 6 (10) lines x line ending {LF,CRLF,mixed} x final {none,newline,lone CR} x {sign v4, sign v6, new SHA-512, new_many 2 signers}: sign -> signed_text = RFC form -> armored -> independent reader sees the text -> from_string -> same text, verifies; non-trivial = text contains '-', blank, TAB or CR",
         cases.into_par_iter(),
         run_text,
     );
